@@ -851,6 +851,8 @@ type HSpec struct {
 	Clauses  map[string]bool
 	// Extend reports whether histories ending in op (which failed in the model if failed) are extended
 	ExtendFailed bool
+	// WarmBetween: requests sent after every intermediate command of a history (not judged)
+	WarmBetween *ObsSpec
 	// Extra, if set, runs after the standard oracle on the final state
 	Extra func(h *HWorld, op HOp, o *HObs) []Violation
 	// PreLast, if set, runs right before the last op (C06 takes its "before" fingerprint here)
@@ -886,6 +888,11 @@ func runHistory(t *testing.T, spec *HSpec, hist []string) (*ExecResult, *Model, 
 				// intermediate steps were checked as their own transitions; a
 				// mismatch here is reported there. Settle briefly.
 				time.Sleep(5 * time.Millisecond)
+				if spec.WarmBetween != nil {
+					// traffic between the commands (answers are not judged here): whatever the implementation remembers
+					// from serving requests in an intermediate configuration must not influence the final one
+					h.observe(*spec.WarmBetween)
+				}
 				continue
 			}
 			lastFailed = len(h.lastWant) > 0
